@@ -6,7 +6,7 @@ PROOF_MODULE = "Nlmodel.Proofs.C13"
 PROOF_FILES = ["Nlmodel/Proofs/C13.lean", "Nlmodel/Model/Value.lean", "Nlmodel/Model/VM.lean", "Nlmodel/Spec/Eval.lean"]
 THEOREM_FILE = PROOF_FILES[0]
 LEVEL_TEXT = ("Lean theorems: index normalisation is exactly 'from the front for i >= 0, from the back for i < 0, error outside [-len, len)'; a non-integer index is a type error and an out-of-range one an index error, with no state change (the error result carries no store); a write through an address is observed through every alias, changes exactly one position and no other address or variable; string replacement is by character position. The store operations are tied to vm.rs by evaluating, for arrays of length 0-6 and strings of 0-6 code points of 1-4 bytes, EVERY index from -(len+2) to len+2 for read, write, write through an alias, write inside a callee, lengte, with every value type as index and as stored value, on the real interpreter, the definitional semantics and the machine model, plus an independent expectation computed from Python list semantics. MACHINE = SEMANTICS on every read and write (C13_index_read_agrees, C13_index_write_agrees; part of the forward simulation of C01 stage 5): under the cell-wise relation between the store of the semantics and the machine heap (injective address map), a read yields related values and a write changes the ONE cell both aliases denote and re-establishes the relation for every other array, string and variable.")
-LEVEL_NOTE = ("Trusted: Lean kernel; Rust std's chars()/char_indices()/replace_range agree with code-point lists (exercised with 1-4 byte code points, not proved); 'leaves the sequence unchanged after an error' is a theorem on the model and is observable on the implementation only through the error kind (a run ends at its first error).")
+LEVEL_NOTE = ("Aliasing across calls (an alias held by a caller, passed as an argument, returned, stored in a global, nested in another array) is inside the C01 simulation since stage 6 (C01_heap_and_calls_*: shared-by-reference store on the semantics side, cell-wise heap relation on the machine side, kept through every collection). Trusted: Lean kernel; Rust std's chars()/char_indices()/replace_range agree with code-point lists (exercised with 1-4 byte code points, not proved); 'leaves the sequence unchanged after an error' is a theorem on the model and is observable on the implementation only through the error kind (a run ends at its first error).")
 TECHNIQUE = "Lean 4 proof (index normalisation, aliasing at store level) + complete index enumeration against the real interpreter"
 RULE = ("for every length 0..6 and every index in [-(len+2), len+2]: array read, write, write via alias, write in callee, nested "
         "alias; string read, write, lengte over code points of 1-4 bytes; every value type as index and as element; "
